@@ -212,6 +212,18 @@ func kinds() []*kind {
 	}, Conf: func(k *kind, limit, passes int) map[string]any {
 		return map[string]any{"type": "json", "source": map[string]any{"type": "file", "path": k.File}, "limit": limit, "passes": passes, "ammo-queue-size": 2}
 	}})
+	// the generic json provider on a source whose data goes on, unparsable, behind the entries: a provider
+	// stopped by its limit has no business reading on (on a stream that stays open it would wait for ever)
+	ks = append(ks, &kind{Name: "json+tail", Type: "json", File: "/ammo", Extract: nameField, Render: func(e int) []byte {
+		var sb strings.Builder
+		for i := 0; i < e; i++ {
+			fmt.Fprintf(&sb, `{"i":"e%d"}`+"\n", i)
+		}
+		sb.WriteString("{this is not json\n")
+		return []byte(sb.String())
+	}, Conf: func(k *kind, limit, passes int) map[string]any {
+		return map[string]any{"type": "json", "source": map[string]any{"type": "file", "path": k.File}, "limit": limit, "passes": passes, "ammo-queue-size": 2}
+	}})
 	return ks
 }
 
@@ -355,7 +367,7 @@ func (r *c08run) check(end, msg string, n int) error {
 		}
 		seenID[id] = true
 	}
-	if r.k.Name != "json" && len(d.IDs) != len(d.Items) {
+	if !strings.HasPrefix(r.k.Name, "json") && len(d.IDs) != len(d.Items) {
 		return fmt.Errorf("IDS: %d of %d delivered items carry an id", len(d.IDs), len(d.Items))
 	}
 	want := make([]string, len(got))
@@ -386,6 +398,9 @@ func c08cells(thorough bool) []C08Cell {
 					for cons := 1; cons <= 2; cons++ {
 						if cons == 2 && !thorough && (limit == 2 || limit == 5 || passes == 3 || e == 3) {
 							continue // quick: two-consumer schedules over the sub-matrix limit {0,1,3} x passes {0,1,2} x E {1,2}
+						}
+						if k.Name == "json+tail" && !(limit == e && passes == 0) {
+							continue // only runs that end at the limit, right in front of the unparsable tail
 						}
 						unb := limit == 0 && passes == 0
 						buffered := strings.HasPrefix(k.Name, "grpc/") || strings.HasSuffix(k.Name, "/scenario")
@@ -498,7 +513,7 @@ func runC10ids(t *testing.T, spec *hutil.Spec, out *hutil.Out) {
 	rn.e.StopOnViol = false
 	var all []C08Cell
 	for _, k := range kinds() {
-		if k.Name == "json" {
+		if strings.HasPrefix(k.Name, "json") {
 			continue // the generic json provider attaches no ids
 		}
 		th := spec.Thorough()
